@@ -44,6 +44,11 @@ pub fn neqo<U: User, E: Engine<U>, G: AnyGoal<U, E>>(a: LTerm<U, E>, b: LTerm<U,
     proto_vulcan!(a != b)
 }
 
+/// projo(x, y): y == [x], reading x through `project` (x must be bound when the goal is reached)
+pub fn projo<U: User, E: Engine<U>, G: AnyGoal<U, E>>(x: LTerm<U, E>, y: LTerm<U, E>) -> InferredGoal<U, E, G> {
+    proto_vulcan_closure!(project |x| { y == [x] })
+}
+
 /// cello(a, b): for a fresh w, a == [1 | w] or b == [2 | w]
 pub fn cello<U: User, E: Engine<U>, G: AnyGoal<U, E>>(a: LTerm<U, E>, b: LTerm<U, E>) -> InferredGoal<U, E, G> {
     proto_vulcan_closure!(|w| {
@@ -70,6 +75,7 @@ pub fn call<U: User, E: Engine<U>, G: AnyGoal<U, E>>(name: &str, a: Vec<LTerm<U,
         "lasto" => lasto::<U, E, G>(a[0].clone(), a[1].clone()).cast_into(),
         "zipo" => zipo::<U, E, G>(a[0].clone(), a[1].clone()).cast_into(),
         "neqo" => neqo::<U, E, G>(a[0].clone(), a[1].clone()).cast_into(),
+        "projo" => projo::<U, E, G>(a[0].clone(), a[1].clone()).cast_into(),
         "cello" => cello::<U, E, G>(a[0].clone(), a[1].clone()).cast_into(),
         "twiceo" => twiceo::<U, E, G>(a[0].clone(), a[1].clone()).cast_into(),
         other => panic!("unknown user relation {}", other),
